@@ -19,6 +19,9 @@ var urlAttrNames = []string{"name", "n", "age", "b", "c", "ISBN", "Name"} // mix
 func genURLSchema(r *Rng, o *Out) *jsonapi.Schema {
 	s := &jsonapi.Schema{}
 	names := []string{"as", "bs", "cs"}
+	if r.chance(1, 6) {
+		names[r.IntN(3)] = "od]t" // a type name with a closing bracket: fields[od]t]=...
+	}
 	n := 1 + r.IntN(3)
 	for i := 0; i < n; i++ {
 		t := jsonapi.Type{Name: names[i]}
@@ -159,7 +162,7 @@ func genQuery(r *Rng, s *jsonapi.Schema, o *Out) []string {
 			ps = append(ps, "include="+inc)
 			o.stat("param.include")
 		case 4:
-			ps = append(ps, "page["+[]string{"number", "size", "foo", "", "a%26"}[r.IntN(5)]+"]="+pageVals[r.IntN(len(pageVals))])
+			ps = append(ps, "page["+[]string{"number", "size", "foo", "", "a%26", "a%5Db", "cursor%5Bafter%5D"}[r.IntN(7)]+"]="+pageVals[r.IntN(len(pageVals))])
 			o.stat("param.page")
 		case 5:
 			ps = append(ps, "filter="+filterVals[r.IntN(len(filterVals))])
